@@ -23,7 +23,7 @@ import (
 	"github.com/xelaj/mtproto/verifharness/refserver"
 )
 
-const watchdog = 3 * time.Second
+var watchdog = watchdogFromEnv()
 
 type callSpec struct {
 	kind   string // obj bool vecbare vecobj err
@@ -60,11 +60,11 @@ type run struct {
 	srv     *refserver.Server
 	cl      *mtproto.MTProto
 	callers []*callerState
-	rx      string // actor name of the receive loop ("" until seen)
+	rx      string          // actor name of the receive loop ("" until seen)
 	inRecv  map[string]bool // callers that passed "prerecv": blocked (or about to block) in `<-resp`
-	lock    string // actor holding the send lock
-	reads   int    // top-level frames the receive loop has taken
-	base    int64  // msg ids are shown to the model minus base
+	lock    string          // actor holding the send lock
+	reads   int             // top-level frames the receive loop has taken
+	base    int64           // msg ids are shown to the model minus base
 	t0      time.Time
 	out     *traceWriter
 	nact    int
@@ -72,6 +72,7 @@ type run struct {
 	nframes int
 	sent    []sentMsg // every server message (top level and container items)
 	status  string
+	random  bool
 	dir     string
 }
 
@@ -642,6 +643,12 @@ func (r *run) finish() {
 				r.out.line("V", idx, "C09", "answered-call-pending:"+cs.spec.kind,
 					fmt.Sprintf("caller %d call %d was answered by the server but never returned", t, cs.k))
 			}
+			if !cs.done && cs.answers == 0 && r.status == "ok" && r.random {
+				// the random generator answers every request it has seen: a call that is still
+				// pending never got its request to the server although nothing was left to schedule
+				r.out.line("V", idx, "C09", "call-never-reached-the-server:"+cs.spec.kind,
+					fmt.Sprintf("caller %d call %d neither completed nor reached the server; no enabled step was left", t, cs.k))
+			}
 		}
 	}
 	// C10: wire order
@@ -727,4 +734,13 @@ func (r *run) teardown() {
 			close(c.cmd)
 		}
 	}
+}
+
+// watchdogFromEnv: how long an arrival that must come (the released operation is enabled) may take
+// before the schedule is reported as stuck. Default 5 s; VERIF_WATCHDOG_MS overrides.
+func watchdogFromEnv() time.Duration {
+	if v, err := strconv.Atoi(os.Getenv("VERIF_WATCHDOG_MS")); err == nil && v > 0 {
+		return time.Duration(v) * time.Millisecond
+	}
+	return 5 * time.Second
 }
